@@ -172,6 +172,22 @@ SEEDS = {
  "C14l": ("C14", "mint helper refuses module accounts", "the governance account as purchaser (same idea as C14g)"),
  "C15k": ("C15", "both unlock branches share a helper that decrements the total by the whole fee", "locked < fee <= locked + liquid while others hold locked eFUND: total < escrow, the export no longer imports"),
  "C15l": ("C15", "SetBeaconStorageLimit refuses limits above the current maximum", "purchase, maximum lowered by governance, export / import panics"),
+ "C01m": ("C01", "WRKChain ante max-slot look-ups inside a map range with early return", "same idea as C01d / C01i (a third author)"),
+ "C01n": ("C01", "a submit time ahead of the node's clock is replaced by time.Now()", "a BEACON record with a submit time in the future: the stored value depends on when the node executes the block"),
+ "C05m": ("C05", "the unlock decorator unlocks the owner of the first WRKChain/BEACON message instead of the fee payer", "a transaction whose fee payer is not the owner (mixed messages with two signers, or an explicit fee payer)"),
+ "C05n": ("C05", "branch decision of the unlock subtracts the whole fee coin set", "a fee carrying a second denomination: all locked eFUND is unlocked while only the fee is deducted"),
+ "C06m": ("C06", "BEACON purchases collected per BEACON id in a map (the last one wins)", "two purchases for the same BEACON in one transaction (same idea as C06b)"),
+ "C06n": ("C06", "CheckIsWrkChainTx returns false at the first message of another module", "a WRKChain message after an unrelated message: admitted with any fee"),
+ "C09m": ("C09", "BEACON registration idempotent per owner, moniker and name", "the same owner registers identical content twice: the old identifier is returned"),
+ "C09n": ("C09", "an empty WRKChain base type is stored as \"other\"", "a registration with an empty base type"),
+ "C13m": ("C13", "signer lookup through a store index rebuilt in SetParams from the params read after the write", "a signer removed by governance keeps deciding and whitelisting"),
+ "C13n": ("C13", "exact resubmission of a recorded WRKChain block answered with success before the owner check", "a non-owner resubmits (id, height, hash) of an existing record and is told it succeeded"),
+ "C16m": ("C16", "signer validation skips blank entries while MinAccepts is still checked against the raw split", "signers \"s1,s2,\" with min_accepts 3 is accepted"),
+ "C16n": ("C16", "WRKChain purchase ValidateBasic caps the number at the compile-time default maximum", "maximum raised by governance above 600000, then a purchase above 600000 within the new maximum"),
+ "C17m": ("C17", "fee > locked branch decrements the total by the whole fee", "same idea as C15k (another author)"),
+ "C17n": ("C17", "paginated total supply skips the locked adjustment when the page key sorts after the native denomination", "reverse key-based paging from a key above the native denomination"),
+ "C20m": ("C20", "purchase-order list counts out-of-page entries as hits when no status filter is set (forgets the purchaser filter)", "purchaser filter, offset continuation or count_total"),
+ "C20n": ("C20", "per-sender stream list served from a sender index written by create only", "streams imported from genesis are missing from the per-sender list"),
  "C14e": ("C14", "accepted order of a de-whitelisted purchaser set to rejected but left in the accepted queue", "whitelist removal before minting: BeginBlock panics from the next block on"),
  "C14f": ("C14", "decisions admitted on accepted orders + decision handler re-queues the order as raised (two files)", "a second signer decides in the one block between acceptance and minting: BeginBlock panics"),
  "C15e": ("C15", "enterprise InitGenesis adds imported spent records onto existing ones (the module is initialised twice by the app)", "an account with spent eFUND, import through the real InitChain"),
